@@ -63,6 +63,25 @@ CLAIMED = {
              "and the model follows the repaired code. binary64 vs exact rationals: compared at 1e-9, decisions at the 1e-6 tolerances are exact.",
         technique="Lean 4 proofs over a line-by-line model + exhaustive differential check + independent classifier oracle",
         ref="7/C12"),
+    "C13": dict(
+        text="Lean 4 theorems about sysLoop / sysGenerator / sysGenerate (model of system.py:156-186 on top of the generation model): C13_stop (the "
+             "accumulated mass before every yielded member is below the system mass and after the last one at least the system mass; induction over "
+             "the loop, every oracle), every member is a fully generated genMol result of the picked component, refusal of non-generable systems, "
+             "C13_single. Correspondence on systems of 1-4 marker-distinguishable components: members (component, mass, residues) and every rng.choice call.",
+        note="Membership on the implementation's output is decided through marker atoms (by construction of the inputs); ties of accumulated and system mass at 1e-9 "
+             "are counted as ties.",
+        technique="Lean 4 proof by induction on the ensemble loop + differential correspondence with marker-decidable membership",
+        ref="7/C13"),
+    "C14": dict(
+        text="Lean 4: C14_impl_law (the component pick hands rel_i/sum rel to the generator, independent of molecule masses), C14_fair_iff / C14_impl_fair_iff "
+             "(over Q, Finset sums: mass shares equal the declared fractions iff p_i is proportional to f_i/mean mass_i; for the implemented law iff all mean "
+             "masses are equal), C14_counterexample. The check reads the probability vector off the rng.choice interface, measures mean molecule masses and "
+             "applies the share formula: the pinned tree violates the property whenever masses differ (KNOWN-FINDING); any other selection law that is unfair "
+             "is a new violation.",
+        note="Partial: the almost-sure convergence of realised mass shares (renewal-reward theorem) is cited, not formalised; the decision is taken at the generator "
+             "interface, never from frequencies.",
+        technique="Lean 4 algebraic proof (fairness criterion) + interface-level differential check",
+        ref="7/C14"),
 }
 
 NOT_YET = {}
